@@ -22,6 +22,38 @@ add('C17', 'exploration',
     'boundary values are only covered by the thorough tier.',
     'bounded exhaustive enumeration (complete product) against a reference model')
 
+add('C01', 'exploration',
+    'Deviation-bounded exhaustive product (k<=2 quick / k<=3 thorough field deviations from a default transaction) over every '
+    'shape with 1..3 and 253 inputs, 0..3 and 253 outputs, witness stack patterns, both classes; headers; blocks of 0..3 and 253 '
+    'transactions; CompactSize at the integer level. Every case: byte-exact comparison with an independent wire encoder, round '
+    'trip through both classes, every truncation point (all prefixes of short encodings, every field boundary +-1 of long ones) '
+    'and a catalogue of extensions with the exact exception class, carried object and padding.',
+    'DESIGN.md 3 C01', 'Oracle ref/wire.py (validated on repository literal transactions and by decode(encode) redundancy). '
+    'Inside one field body of a long encoding the parser outcome is assumed uniform (it reads field by field).',
+    'bounded exhaustive enumeration (deviation-bounded product + exhaustive truncation/extension fault enumeration) against a reference model')
+
+add('C02', 'exploration',
+    'Every base transaction (12 shapes x k<=1/2 field deviations) x every witness assignment (all 5^n stack patterns, absent, '
+    'empty object) in both classes: txid/wtxid against sha256d of the reference encodings, equality/hash of twins, txid '
+    'invariance under witness replacement, no stale identifiers after field edits, immutable snapshots; sub-object twins; '
+    'block hash = sha256d(80-byte header) for constructed and deserialised blocks (arbitrary merkle field) of 0..3 transactions.',
+    'DESIGN.md 3 C02', 'Oracle ref/wire.py + hashlib.', 'bounded exhaustive enumeration (complete product of shapes x witness patterns) against a reference model')
+
+add('C03', 'exploration',
+    'Complete product: 48 transactions (1..3 in x 0..3 out x witness x class; thorough adds k<=1 field deviations) x 19 subscripts '
+    '(CODESEPARATOR first/middle/last/repeated/only/inside push data, PUSHDATA1/2/4 spellings, 255-byte and >64 KiB scripts) x '
+    'every index 0..len(vin) x all 256 hash types, RawSignatureHash and SignatureHash, with a full before/after snapshot '
+    '(serialisation, field values and object identities) of the caller\'s transaction.',
+    'DESIGN.md 3 C03', 'Oracle ref/sighash.py (preimage assembled from the model by ref/wire.py).',
+    'bounded exhaustive enumeration (complete product incl. all 256 hash types) against a reference model')
+
+add('C04', 'exploration',
+    'Deviation-bounded product (k<=2 quick / k<=3 thorough) over transaction fields at the uint32/int32/int64 boundaries, amount, '
+    'script-code length across every CompactSize boundary, every valid index, both classes; all 256 hash types for k<=1, 12 '
+    'representative (incl. undefined) types for k>=2; digest compared with the BIP143 preimage assembled by the reference.',
+    'DESIGN.md 3 C04', 'Oracle ref/sighash.py validated on the BIP143 example vectors shipped in the repository tests.',
+    'bounded exhaustive enumeration (deviation-bounded product) against a reference model')
+
 NOT_YET = 'check not yet built in this revision of /verif (planned, see DESIGN.md section 3)'
 
 
